@@ -48,6 +48,8 @@ type verifPipelineCase struct {
 	// ... and the consumer wakes up after the datagrams with these indices (0-based) have been processed: everything queued
 	// is taken off then (fillers are dropped, messages are recorded in order); the rest is read at the end as always
 	DrainAfter []int `json:"drain_after"`
+	// after each such drain the outgoing queue is filled up again but for this many places (0: it is left empty)
+	RefillRoom int `json:"refill_room"`
 	// enterprise elements to install into ipfix.InfoModel first: [enterprise no, element id, FieldType]
 	ExtElements [][3]uint32 `json:"ext_elements"`
 }
@@ -274,6 +276,9 @@ func verifPipeline(raw []byte) interface{} {
 				if m := <-mq; string(m) != "filler" {
 					early = append(early, hex.EncodeToString(m))
 				}
+			}
+			for c.FillOwn && c.RefillRoom > 0 && len(mq) < cap(mq)-c.RefillRoom {
+				mq <- []byte("filler")
 			}
 		}
 	}
